@@ -130,3 +130,58 @@ class FindType:
     invariants = {0: _loop}
     named_appends = True
     modifies = ()
+
+
+# ------------------------------------------------------------------ the verdict over a basis
+# PolyPerms._types memoises frozenset(_find_type(perm)) in a class-level dictionary (MEMO-TABLE rule: cold path
+# verified, warm path by the structural memo-invariant).  is_polynomial(basis) counts the distinct types found
+# in the basis; there are ten types, so "the count is 10" says: every one of the ten minimal non-polynomial
+# classes has a member among the basis elements (Homberger-Vatter / Albert-Atkinson-Brignall).
+@contract(PP + "_types", params={"perm": "Perm"}, returns="IntSet", props=P)
+class Types:
+    def requires(c, perm):
+        return c.is_perm(perm)
+
+    def ensures(c, perm, result):
+        found = c.call(PP + "_find_type", perm)
+        return c.forall_int(lambda v: c.iff(c.in_set(v, result), c.in_set(v, found)))
+
+    memo_tables = ("_CACHE",)
+    modifies = ()
+
+
+def _is_polynomial(k):
+    @contract(PP + f"is_polynomial@{k}", params={"basis": f"Perm*{k}"}, returns="bool", props=P)
+    class _K:
+        def requires(c, basis):
+            return c.and_(*[c.is_perm(b) for b in basis])
+
+        def ensures(c, basis, result):
+            found = [c.call(PP + "_find_type", b) for b in basis]
+            return c.iff(result, c.and_(*[c.or_(*[c.in_set(t, f) for f in found]) for t in range(10)]))
+
+        set_universe = (0, 10)
+        modifies = ()
+
+    return _K
+
+
+def _is_non_polynomial(k):
+    @contract(PP + f"is_non_polynomial@{k}", params={"basis": f"Perm*{k}"}, returns="bool", props=P)
+    class _K:
+        def requires(c, basis):
+            return c.and_(*[c.is_perm(b) for b in basis])
+
+        def ensures(c, basis, result):
+            found = [c.call(PP + "_find_type", b) for b in basis]
+            return c.iff(result, c.not_(c.and_(*[c.or_(*[c.in_set(t, f) for f in found]) for t in range(10)])))
+
+        set_universe = (0, 10)  # (used when the callee is inlined by the concrete differential check)
+        modifies = ()
+
+    return _K
+
+
+for _k in (0, 1, 2, 3):
+    _is_polynomial(_k)
+    _is_non_polynomial(_k)
